@@ -415,6 +415,6 @@ def run(ctx):
     kernel_grid(ctx)
     ragged_finding(ctx)
     guard_probes(ctx)
-    diagram_props(ctx, ctx.n(40, 600))
-    murphy_cases(ctx, ctx.n(220, 3000))
-    thetas_cases(ctx, ctx.n(200, 3000))
+    diagram_props(ctx, ctx.n(40, 2500))
+    murphy_cases(ctx, ctx.n(220, 12000))
+    thetas_cases(ctx, ctx.n(200, 10000))
